@@ -123,6 +123,9 @@ inline Profile profile_for(int prop, unsigned caps)
         case 10:
             history(1);
             add(K_RESERVE, 14);
+            // reserve on a moved-from vector (no precondition) and on one revived by clear()
+            add(K_MOVECTOR, 2);
+            add(K_MOVEASSIGN, 2);
             break;
         case 11:
             history(1);
